@@ -6,7 +6,7 @@ VERIF = '/verif'
 def sh(cmd, cwd=None):
     r = subprocess.run(cmd, shell=True, cwd=cwd, stdout=subprocess.PIPE, stderr=subprocess.STDOUT)
     return r.returncode, r.stdout.decode('utf-8', 'replace')
-ids = sys.argv[1:] or sorted(os.listdir(os.path.join(VERIF, 'seeded')))
+ids = sys.argv[1:] or sorted(d for d in os.listdir(os.path.join(VERIF, 'seeded')) if not d.startswith('_'))
 manifest = json.load(open(os.path.join(VERIF, 'MANIFEST.json')))
 rc, out = sh('git -C /repo status --porcelain')
 assert not out.strip(), '/repo dirty'
